@@ -15,6 +15,7 @@ Definition E_unclosed_group : N := 3%N.
 Definition E_implementation : N := 4%N.
 Definition E_group_mismatch : N := 5%N.
 Definition E_missing_operand : N := 6%N.
+Definition E_malformed : N := 7%N.
 
 Record pnode : Type := mkNode {
   n_def : definition;
@@ -316,11 +317,13 @@ Definition step (ntoks : nat) (i : nat) (tok : token_type) (st0 : pstate) : res 
                   | None => impl_err
                   | Some ln =>
                     let empty_group := Nat.eqb l gleft && opt_nat_eqb (n_right ln) (Some current_id) in
-                    let ln1 := if is_optional (n_def ln) || empty_group then set_right None ln else ln in
+                    let unfilled_optional := secondary_eqb (n_sec ln) S_OptionalBinaryLeftToRight
+                                             && opt_nat_eqb (n_right ln) (Some current_id) in
+                    let ln1 := if is_optional (n_def ln) || empty_group || unfilled_optional then set_right None ln else ln in
                     match upd (nodes st) l (fun _ => ln1) with
                     | None => impl_err
                     | Some ns1 =>
-                      if definition_eqb (n_def ln1) D_Subexpression
+                      if (definition_eqb (n_def ln1) D_Subexpression || definition_eqb (n_def ln1) D_ExpressionSeparator)
                          && opt_nat_eqb (n_right ln1) (Some current_id)
                       then
                         let new_parent := n_parent ln1 in
@@ -455,6 +458,56 @@ Fixpoint find_root (fuel : nat) (ns : list pnode) (root : nat) (n : pnode) (coun
     end
   end.
 
+(* validate_tree: the node links form a tree *)
+Definition visit_child (ns : list pnode) (visited : list bool) (stack : list nat) (i : nat) (c : option nat)
+  : res (list bool * list nat) :=
+  match c with
+  | None => Ok (visited, stack)
+  | Some k =>
+    match nth_error ns k, nth_error visited k with
+    | Some cn, Some false =>
+      if opt_nat_eqb (n_parent cn) (Some i) then
+        match upd visited k (fun _ => true) with
+        | Some v' => Ok (v', k :: stack)
+        | None => Err E_malformed
+        end
+      else Err E_malformed
+    | _, _ => Err E_malformed
+    end
+  end.
+
+Fixpoint validate_go (fuel : nat) (ns : list pnode) (visited : list bool) (stack : list nat) : res (list bool) :=
+  match fuel with
+  | O => OutOfFuel
+  | S f =>
+    match stack with
+    | [] => Ok visited
+    | i :: rest =>
+      let '(l, r) := match nth_error ns i with Some n => (n_left n, n_right n) | None => (None, None) end in
+      do a <- visit_child ns visited rest i l;
+      let '(v1, st1) := a in
+      do b <- visit_child ns v1 st1 i r;
+      let '(v2, st2) := b in
+      validate_go f ns v2 st2
+    end
+  end.
+
+Fixpoint unvisited_ok (ns : list pnode) (visited : list bool) : bool :=
+  match ns, visited with
+  | n :: r, v :: vr =>
+    (v || definition_eqb (n_def n) D_Subexpression || definition_eqb (n_def n) D_ExpressionSeparator)
+    && unvisited_ok r vr
+  | _, _ => true
+  end.
+
+Definition validate_tree (ns : list pnode) (root : nat) : res unit :=
+  match upd (map (fun _ => false) ns) root (fun _ => true) with
+  | None => Err E_malformed
+  | Some v0 =>
+    do v <- validate_go (S (S (length ns))) ns v0 [root];
+    if unvisited_ok ns v then Ok tt else Err E_malformed
+  end.
+
 Definition parse_trimmed (toks : list token_type) : res (nat * list pnode) :=
   match toks with
   | [] => Ok (0, [])
@@ -470,7 +523,8 @@ Definition parse_trimmed (toks : list token_type) : res (nat * list pnode) :=
                               | None => n end) (nodes st) in
       match ns with
       | [] => Ok (0, [])
-      | n0 :: _ => do root <- find_root (S (S (length ns))) ns 0 n0 0; Ok (root, ns)
+      | n0 :: _ => do root <- find_root (S (S (length ns))) ns 0 n0 0;
+                   do _ <- validate_tree ns root; Ok (root, ns)
       end
     end
   end.
